@@ -528,7 +528,5 @@ def run_op(u, op):
         return None
     except Malformed:
         raise
-    except RecursionError:
-        raise
     except Exception as e:  # an exception is a legal outcome of any editing call
         return e
